@@ -2187,6 +2187,15 @@ fn analyze_structural(
 {
 	match structural_type.analyze(typer)
 	{
+		// Nothing is known about an opaque structure, so it has no values.
+		Ok(structural_type)
+			if typer.holds_opaque_structure(&structural_type) =>
+		{
+			Expression::Poison(Poison::Error(Error::IllegalType {
+				value_type: structural_type,
+				location,
+			}))
+		}
 		Ok(structural_type) =>
 		{
 			let structure_identifier = match &structural_type
